@@ -64,6 +64,10 @@ func init() {
 			// through Delay elision, no dropped result expression of `return <expr>`
 			r := newRwRT(c)
 			c.guard("OPT.WHITELIST", func() { r.ruleOptWhitelist(s) })
+			c.guard("OPT.RULES", r.ruleOptRules)
+			// a closure replaced by a method value evaluates its receiver when the closure is created:
+			// a nil receiver then panics in an earlier step (or when the generator function is called)
+			c.guard("OPT.ETA", r.ruleOptEta)
 			c.guard("RW.TMPL.RETURN", r.rulePass0)
 			c.guard("RW.TMPL.FOR", r.ruleTmplFor)
 			c.keep(func(o Obligation) bool {
@@ -74,9 +78,19 @@ func init() {
 					return false
 				case "RW.TMPL.RETURN":
 					return !strings.HasPrefix(o.Construct, "nested ordinary closure")
+				case "OPT.ETA":
+					// only the shapes where the reduction moves the evaluation of an operand (receiver,
+					// function variable, field, callee call) to the creation of the closure
+					for _, p := range []string{"callee is a method value", "callee is a function variable", "callee is a struct field", "callee is a call", "pattern shape", "liveness"} {
+						if strings.HasPrefix(o.Construct, p) {
+							return true
+						}
+					}
+					return false
 				}
 				return true
 			})
+			c.min("OPT.ETA", 4)
 			c.min("SEQ.CHAIN", 2)
 			c.min("SEQ.TAKE", 2)
 			c.min("OPT.BINDLIT", 1)
